@@ -39,3 +39,15 @@ register(Harness("c01_faults", "C01", lambda P: reharness.make_sweep(P, _oracle,
                  goals=["device-failure-surfaced", "paused"], functions=_fns, mode="schedule",
                  symbolic=SYM + "; plus one device fault: protocol call j raises, or the status returned by call j fails (j over every device call of the plan)",
                  out_of_bound=OUT, stubs=STUBS, require_exhaustive=True))
+
+
+def _poke(lab):
+    lab.poke_on_stop = True  # a document consumer that reacts to every RunStop by updating the monitored signal
+
+
+register(Harness("c01_poke", "C01", lambda P: reharness.make_sweep(P, _oracle, plans=["monitor_mid", "staged_monitor", "monitor_meta"], extra=dict(setup=_poke),
+                                                                     kinds=["pause", "abort", "suspend"], decisions=["resume", "abort"]),
+                 {"quick": dict(shards=16, budget_s=300, per_path_s=30), "thorough": dict(shards=16, budget_s=1200, per_path_s=30)},
+                 goals=["paused", "resumed"], functions=_fns, mode="schedule",
+                 symbolic=SYM + " -- on plans with monitors, with a RunStop consumer that updates the monitored signal while the RunStop is being dispatched",
+                 out_of_bound=OUT, stubs=STUBS, require_exhaustive=True))
